@@ -16,7 +16,7 @@ pub struct SCase {
     /// C15: index of the case this one is the alpha-renamed twin of
     pub twin_of: Option<usize>,
     /// print the renamed binders (indices beyond the fixed name table) with a leading underscore
-    pub underscore: bool,
+    pub underscore: u8,
 }
 
 // ---------------------------------------------------------------------------------------------
@@ -327,7 +327,7 @@ pub fn c13_cases(quick: bool) -> Vec<SCase> {
                 }
                 let mut body = setup.clone();
                 body.push(G::Match(kind, subj.clone(), vec![(vec![p.clone()], b.clone())]));
-                out.push(SCase { program: Program { nq: 2, body }, as_query: count % 7 == 0, take: 50, ordered: false, twin_of: None, underscore: false });
+                out.push(SCase { program: Program { nq: 2, body }, as_query: count % 7 == 0, take: 50, ordered: false, twin_of: None, underscore: 0 });
             }
         }
     }
@@ -347,7 +347,7 @@ pub fn c13_cases(quick: bool) -> Vec<SCase> {
             for st in &subj_terms {
                 for kind in kinds {
                     let m = G::Match(kind, st.clone(), vec![(alts.clone(), vec![G::Eq(r(), T::list(vec![q()]))]), (vec![T::W], vec![G::Eq(r(), T::I(0))])]);
-                    out.push(SCase { program: Program { nq: 2, body: vec![m] }, as_query: false, take: 50, ordered: false, twin_of: None, underscore: false });
+                    out.push(SCase { program: Program { nq: 2, body: vec![m] }, as_query: false, take: 50, ordered: false, twin_of: None, underscore: 0 });
                 }
             }
         }
@@ -363,9 +363,9 @@ pub fn c13_cases(quick: bool) -> Vec<SCase> {
                 for b in &bodies {
                     for kind in kinds {
                         let arms = vec![(fp.clone(), b.clone()), (vec![T::W], vec![G::Eq(r(), T::I(0))])];
-                        out.push(SCase { program: Program { nq: 2, body: vec![G::Match(kind, st.clone(), arms)] }, as_query: false, take: 50, ordered: false, twin_of: None, underscore: false });
+                        out.push(SCase { program: Program { nq: 2, body: vec![G::Match(kind, st.clone(), arms)] }, as_query: false, take: 50, ordered: false, twin_of: None, underscore: 0 });
                         let arms3 = vec![(vec![T::I(9)], vec![G::Eq(r(), T::I(9))]), (fp.clone(), b.clone()), (vec![T::W], vec![G::Eq(r(), T::I(0))])];
-                        out.push(SCase { program: Program { nq: 2, body: vec![G::Match(kind, st.clone(), arms3)] }, as_query: false, take: 50, ordered: false, twin_of: None, underscore: false });
+                        out.push(SCase { program: Program { nq: 2, body: vec![G::Match(kind, st.clone(), arms3)] }, as_query: false, take: 50, ordered: false, twin_of: None, underscore: 0 });
                     }
                 }
             }
@@ -397,7 +397,7 @@ pub fn c13_cases(quick: bool) -> Vec<SCase> {
                         continue;
                     }
                     body.push(G::Match(kind, subj.clone(), arms.clone()));
-                    out.push(SCase { program: Program { nq: 2, body }, as_query: false, take: 50, ordered: false, twin_of: None, underscore: false });
+                    out.push(SCase { program: Program { nq: 2, body }, as_query: false, take: 50, ordered: false, twin_of: None, underscore: 0 });
                 }
             }
         }
@@ -468,7 +468,7 @@ pub fn c14_cases(quick: bool) -> Vec<SCase> {
     let mut count = 0usize;
     let mut push = |out: &mut Vec<SCase>, body: Vec<G>, nq: u32, take: usize, ordered: bool| {
         count += 1;
-        out.push(SCase { program: Program { nq, body }, as_query: count % 5 == 0, take, ordered, twin_of: None, underscore: false });
+        out.push(SCase { program: Program { nq, body }, as_query: count % 5 == 0, take, ordered, twin_of: None, underscore: 0 });
     };
     // (1) every term on either side of == and != and as relation / user-relation argument
     for t in &terms {
@@ -535,7 +535,7 @@ pub fn c14_cases(quick: bool) -> Vec<SCase> {
     // (4) query-variable order: 1..3 query variables, each bound to a distinct value
     for nq in 1..=3u32 {
         let body: Vec<G> = (0..nq).rev().map(|i| G::Eq(T::V(i), T::I(10 + i as i64))).collect();
-        out.push(SCase { program: Program { nq, body }, as_query: true, take: 5, ordered: false, twin_of: None, underscore: false });
+        out.push(SCase { program: Program { nq, body }, as_query: true, take: 5, ordered: false, twin_of: None, underscore: 0 });
     }
     out
 }
@@ -639,6 +639,22 @@ pub fn c15_cases(quick: bool) -> Vec<SCase> {
         base.push(vec![G::Match(kind, q(), vec![(vec![T::cons(T::W, q())], vec![G::Eq(r(), q())]), (vec![T::W], vec![G::Eq(r(), T::I(0))])]), G::Eq(q(), T::list(vec![T::I(1), T::I(2)]))]);
         base.push(vec![G::Eq(q(), T::list(vec![T::I(1), T::list(vec![T::I(2)])])), G::Match(kind, q(), vec![(vec![T::list(vec![T::W, q()])], vec![G::Match(kind, q(), vec![(vec![T::list(vec![q()])], vec![G::Eq(r(), q())])])])])]);
     }
+    // nested scopes with a single goal inside, racing a sibling branch: whatever the binders are
+    // called, the answers come in the same order
+    base.push(vec![G::Conde(vec![vec![G::Fresh(vec![2], vec![G::Fresh(vec![3], vec![leaf(&q(), 1)])])], vec![leaf(&q(), 2)]])]);
+    base.push(vec![G::Conde(vec![vec![leaf(&q(), 2)], vec![G::Fresh(vec![2], vec![G::Fresh(vec![3], vec![G::Fresh(vec![4], vec![leaf(&q(), 1)])])])], vec![leaf(&q(), 3)]])]);
+    base.push(vec![G::Conde(vec![vec![G::Fresh(vec![2], vec![G::Eq(q(), T::list(vec![x.clone()]))])], vec![G::Fresh(vec![2], vec![G::Fresh(vec![3], vec![G::Eq(q(), T::list(vec![x.clone(), y.clone()]))])])], vec![leaf(&q(), 0)]])]);
+    base.push(vec![G::Fresh(vec![2], vec![G::Conde(vec![vec![G::Fresh(vec![3], vec![G::Fresh(vec![4], vec![leaf(&x, 1)])])], vec![leaf(&x, 2)]])]), G::Eq(q(), r())]);
+    // two branches, each two scopes deep with several goals inside (a renaming of the binders of
+    // ONE branch must not change how the branches take turns)
+    {
+        let (a, b, c, d) = (T::V(2), T::V(3), T::V(4), T::V(5));
+        let br = |o: &T, i: &T, k: i64| G::Fresh(vec![match o { T::V(n) => *n, _ => 0 }], vec![G::Fresh(vec![match i { T::V(n) => *n, _ => 0 }], vec![G::Eq(i.clone(), o.clone()), G::Eq(o.clone(), T::I(k)), G::Eq(q(), i.clone())])]);
+        base.push(vec![G::Conde(vec![vec![br(&a, &b, 1)], vec![br(&c, &d, 2)]])]);
+        base.push(vec![G::Conde(vec![vec![br(&a, &b, 1)], vec![br(&c, &d, 2)], vec![leaf(&q(), 3)]])]);
+        base.push(vec![G::Conde(vec![vec![leaf(&q(), 3)], vec![br(&a, &b, 1)], vec![G::Closure(Box::new(br(&c, &d, 2)))]])]);
+        base.push(vec![G::Conde(vec![vec![br(&a, &b, 1), leaf(&r(), 0)], vec![leaf(&r(), 1), br(&c, &d, 2)]])]);
+    }
     // one goal VALUE solved twice on the same path: its fresh variables are new each time
     base.push(vec![G::Call("twiceo".into(), vec![q(), r()])]);
     base.push(vec![G::Call("cello".into(), vec![q(), r()]), G::Call("cello".into(), vec![q(), r()])]);
@@ -659,10 +675,12 @@ pub fn c15_cases(quick: bool) -> Vec<SCase> {
         let p = Program { nq: 2, body: b };
         let renamed = alpha_rename(&p);
         let idx = out.len();
-        out.push(SCase { program: p, as_query: i % 6 == 0, take: 50, ordered: false, twin_of: None, underscore: false });
-        out.push(SCase { program: renamed.clone(), as_query: i % 6 == 0, take: 50, ordered: false, twin_of: Some(idx), underscore: false });
+        out.push(SCase { program: p, as_query: i % 6 == 0, take: 50, ordered: false, twin_of: None, underscore: 0 });
+        out.push(SCase { program: renamed.clone(), as_query: i % 6 == 0, take: 50, ordered: false, twin_of: Some(idx), underscore: 0 });
         // the same twin with underscore-prefixed binder names (`_v7`): a name is only a name
-        out.push(SCase { program: renamed, as_query: i % 6 == 0, take: 50, ordered: false, twin_of: Some(idx), underscore: true });
+        out.push(SCase { program: renamed, as_query: i % 6 == 0, take: 50, ordered: false, twin_of: Some(idx), underscore: 1 });
+        out.push(SCase { program: alpha_rename(&out[idx].program.clone()), as_query: i % 6 == 0, take: 50, ordered: false, twin_of: Some(idx), underscore: 2 });
+        out.push(SCase { program: alpha_rename(&out[idx].program.clone()), as_query: i % 6 == 0, take: 50, ordered: false, twin_of: Some(idx), underscore: 3 });
     }
     out
 }
@@ -729,7 +747,7 @@ pub fn generate(id: &str, quick: bool, dir: &str) -> std::io::Result<usize> {
             }
             NESTED_TAILS.with(|n| n.set(prev));
             ALT_FORMS.with(|a| a.set(false));
-            crate::ast::UNDERSCORE_NAMES.with(|u| u.set(false));
+            crate::ast::UNDERSCORE_NAMES.with(|u| u.set(0));
             f.push('\n');
             line += f.lines().count();
             writeln!(index, "{}\t{}\t{}\t{}", m, start, line - 1, i).unwrap();
